@@ -26,6 +26,14 @@ CLAIMS = {
              "(3-valued specialisation); queries never read the flag.",
         technique="MIR pass-edge reachability + constant-propagation specialisation + effect sets",
         ref="6/C11"),
+    "C20": dict(
+        text="Decides, for every instantiate/update writer of the three bounded fields, that the stored value is the old value, "
+             "min(.,1), or an incoming value whose write is reachable only through the edge v <= 1 / option-absent; frozen fields are "
+             "only re-stored with their stored value and a present stsei_reward_denom has no success exit; for ~25 updatable fields the "
+             "written value derives only from its own stored value or the tabled message field (2^n option combinations decided by n "
+             "provenance queries). 'A rejected update changes nothing' is CosmWasm's revert.",
+        technique="per-field value provenance over storage writers + guarded-site reachability on MIR",
+        ref="6/C20"),
 }
 
 NA = {
